@@ -176,10 +176,26 @@ def eam_api_objects(model, wrap=None):
   return out
 
 
+def vary_containers(model, objs):
+  """API usage variants (model['api_containers']): the documented examples pass lists; tuples for everything and
+  one-shot iterables (generator, map) for the pair-like potentials are accepted by the original code as well.
+  A one-shot iterable serves ONE write."""
+  v = model.get("api_containers")
+  if not v:
+    return objs
+  objs = list(objs)
+  if v == "tuple":
+    return [tuple(o) for o in objs]
+  for i in [0] + list(range(2, len(objs))):
+    seq = objs[i]
+    objs[i] = (p for p in seq) if v == "generator" else map(lambda p: p, seq)
+  return objs
+
+
 def eam_tab_api(model, wrap=None):
   from atsim.potentials import eam_tabulation
   cls = getattr(eam_tabulation, EAM_CLASSES[model["target"]])
-  objs = eam_api_objects(model, wrap)
+  objs = vary_containers(model, eam_api_objects(model, wrap))
   t = model["tab"]
   return cls(*objs, float(t["cutoff"]), int(t["nr"]), float(t["cutoff_rho"]), int(t["nrho"]))
 
